@@ -23,7 +23,12 @@ static struct qs c02_empty_blk = { { {{{{ (uint32_t)-1 }}}}, 0, 0, QS_OFF }, 0, 
 /* (3) strings stored into the tree by the writer are model blocks with a content id: a static QStringLiteral / shared_null operand is copied into
        one (constant content: the copy and its id fold). (4) blocks owned by the tree are immortal (ref -1, like Qt's static data; model blocks are
        never recycled anyway): reference counting through if-then-else pointers otherwise grows a conditional-increment term per block. */
-static QAD *c02_blk(QAD *d) { if (d->f3 == QS_OFF) return qad_ref(d); if (d->f1 == 0) return C02_EMPTY; QAD *c = qs_from(qs_chars(d), d->f1); REF(c) = (uint32_t)-1; return c; }
+/* (5) NO reference counting by the tree (neither when the writer stores a string nor when a getter hands one out): `ref++` through an
+       if-then-else pointer that may also be one of Qt's static literals is a whole-object update of every candidate (measured: 170 KB per
+       SSA step, SAT conversion out of memory). Sound because model blocks are never recycled (QArrayData::deallocate is a no-op); the only
+       effect of a too-small count would be an in-place QString::resize()/reallocData() by code that still shares the block with the tree. */
+#define qad_ref(d) (d)
+static QAD *c02_blk(QAD *d) { if (d->f3 == QS_OFF) return d; if (d->f1 == 0) return C02_EMPTY; QAD *c = qs_from(qs_chars(d), d->f1); REF(c) = (uint32_t)-1; return c; }
 static QAD *c02_nz(QAD *d) { return d->f1 == 0 && d == SHARED_NULL ? C02_EMPTY : d; }
 struct dnode { QAD *tag, *ns, *text; uint32_t nattr; uint8_t has[DOM_MAXATTR]; QAD *av[DOM_MAXATTR]; uint32_t nch; struct dnode *ch[DOM_MAXCH]; struct dnode *parent; uint32_t idx; uint32_t ntext; };
 /* (2) unused child slots point to a static sentinel node (not uninitialised / null): reading slot i of a node whose child COUNT is symbolic then
